@@ -195,6 +195,8 @@ EXPECT = {
   "zero_width_partition"
  ],
  "C04": [
+  "dmg_all_ones_run",
+  "dmg_all_zeros_run",
   "dmg_generator_made_file",
   "bent_frame_built",
   "bent_frame_invalid_per_refflac",
@@ -413,6 +415,8 @@ EXPECT = {
   "c16_sync_split_across_refill"
  ],
  "C17": [
+  "dmg_all_ones_run",
+  "dmg_all_zeros_run",
   "rd_depth_coded_as_see_streaminfo",
   "rd_block_sizes_from_code_table",
   "rd_variable_block_size_stream",
